@@ -8,6 +8,7 @@
 #include <getopt.h>
 #include <pthread.h>
 #include <string.h>
+#include <unistd.h>
 
 #include <algorithm>
 #include <set>
@@ -99,7 +100,9 @@ bool class_in_scope(const std::string &prop, const std::string &cls, int mode, b
   if (prop == "C14") return mode == M_COUNT && model_cls;
   if (prop == "C15") {
     // the fresh-instance comparison is the oracle; disagreement of both with the model is another property's business
-    return cls == "fresh_twin" || cls == "prefix_modified" || cls == "carryover";
+    // "history": the model is contradicted after this history, while the very same call on a new instance in a new
+    // process gives what the model says (state shared between instances fools the in-process fresh instance too)
+    return cls == "fresh_twin" || cls == "prefix_modified" || cls == "carryover" || cls == "history";
   }
   if (prop == "C17") {
     if (cls == "fault_ret" || cls == "file_content" || cls == "prefix_modified") return true;
@@ -426,6 +429,201 @@ static int do_asm_call(Run &R, TaskRt &T, Inst &I, const AsmCall &a, const std::
   return ret;
 }
 
+// C15: the same final call (same settings, same offset, same text) on a new instance in a NEW PROCESS whose first library
+// calls these are.  State shared between instances (a static, a stale errno, a cache) fools a fresh instance of this
+// process - and the isolated-line oracle's own instances have long run here - but not a process that has done nothing yet.
+// The child is this very binary (`alsim pristine <plan>`); it runs no oracle, no model, no corpus: create, the three
+// canonical option setters, chunk size, offset, the call.  The verdict is as repeatable as any replay.
+struct PristineResult {
+  bool ok = false;     // the child delivered a result
+  bool fault = false;  // ... and it was a crash / hang inside the library
+  int ret = -99, off = -1, count = 0;
+  std::vector<uint8_t> bytes;  // [start, off) when ret == 0
+  std::string text;
+};
+
+static Plan pristine_plan(const Plan &base, const InstModel &m, const Op &op, long start, long off_seen) {
+  Plan q;
+  q.prop = base.prop;
+  q.variant = "pristine";
+  q.world = base.world;
+  q.world.sabotage = 0;
+  Task t;
+  uint64_t uid = 1;
+  auto mk = [&](int kind) {
+    Op o;
+    o.kind = kind;
+    o.slot = 0;
+    o.uid = uid++;
+    return o;
+  };
+  Op c = mk(OP_CREATE);
+  const bool fresh_internal = !m.external && start <= lib_geometry().initial + lib_geometry().step - 120;
+  c.n = m.external ? m.cap : fresh_internal ? -1 : std::max<long>(65536, std::max<long>(off_seen, start) + 8192);
+  c.fill = op.fill;
+  t.ops.push_back(c);
+  const int sv[3] = {m.mov, m.swap, m.nobase};
+  for (int w = 0; w < 3; w++) {
+    Op o = mk(OP_SETTER);
+    o.which = w;  // S_MOV_IMM, S_SWAP, S_NOBASE
+    o.value = sv[w];
+    t.ops.push_back(o);
+  }
+  if (m.chunk > 0) {
+    Op o = mk(OP_CHUNK);
+    o.c = m.chunk;
+    t.ops.push_back(o);
+  }
+  Op so = mk(OP_OFFSET);
+  so.k = start;
+  t.ops.push_back(so);
+  Op fin = op;
+  fin.slot = 0;
+  fin.uid = uid++;
+  fin.fresh_twin = false;
+  fin.alias = false;
+  fin.env.clear();
+  t.ops.push_back(fin);
+  q.tasks.push_back(t);
+  return q;
+}
+
+static PristineResult pristine_process(Run &R, const InstModel &m, const Op &op, long start, long off_seen) {
+  PristineResult pr;
+  if (R.p->variant == "pristine" || R.p->fine || m.chunk_unknown || m.offset_unspec) return pr;
+  Plan q = pristine_plan(*R.p, m, op, start, off_seen);
+  static int counter = 0;
+  char path[128], exe[512];
+  snprintf(path, sizeof path, "/tmp/alsim-pristine-%d-%d.json", (int)getpid(), counter++);
+  ssize_t el = readlink("/proc/self/exe", exe, sizeof exe - 1);
+  if (el <= 0) return pr;
+  exe[el] = 0;
+  FILE *f = fopen(path, "w");
+  if (!f) return pr;
+  fprintf(f, "%s\n", plan_to_json(q).dump().c_str());
+  fclose(f);
+  std::string cmd = std::string("'") + exe + "' pristine '" + path + "' 2>/dev/null";
+  FILE *pp = popen(cmd.c_str(), "r");
+  if (pp) {
+    std::string out;
+    char buf[4096];
+    size_t n;
+    while ((n = fread(buf, 1, sizeof buf, pp)) > 0) out.append(buf, n);
+    pclose(pp);
+    size_t at = out.find("PRISTINE ");
+    if (at != std::string::npos) {
+      std::string l = out.substr(at, out.find('\n', at) - at);
+      pr.text = l;
+      if (l.compare(0, 15, "PRISTINE fault ") == 0) {
+        pr.ok = pr.fault = true;
+      } else {
+        char hex[8] = {0};
+        int nb = 0, pos = 0;
+        if (sscanf(l.c_str(), "PRISTINE ret=%d off=%d count=%d n=%d bytes=%n", &pr.ret, &pr.off, &pr.count, &nb, &pos) >= 4 && pos > 0) {
+          pr.ok = true;
+          for (int i = 0; i < nb && (size_t)(pos + 2 * i + 1) < l.size(); i++) {
+            hex[0] = l[(size_t)(pos + 2 * i)];
+            hex[1] = l[(size_t)(pos + 2 * i + 1)];
+            pr.bytes.push_back((uint8_t)strtoul(hex, nullptr, 16));
+          }
+          if ((int)pr.bytes.size() != nb) pr.ok = false;
+        }
+      }
+    }
+  }
+  unlink(path);
+  R.st.bump("pristine_process_calls");
+  return pr;
+}
+
+// the child side: `alsim pristine <plan>`
+int run_pristine(const Plan &p, FILE *out) {
+  if (p.tasks.size() != 1 || p.tasks[0].ops.size() < 3) return 2;
+  const std::vector<Op> &ops = p.tasks[0].ops;
+  const Op &cr = ops.front(), &fin = ops.back();
+  if (cr.kind != OP_CREATE) return 2;
+  const bool counting = fin.kind == OP_COUNT || fin.kind == OP_COUNT_FILE;
+  const bool via_file = fin.kind == OP_ASM_FILE || fin.kind == OP_COUNT_FILE;
+  if (!counting && !via_file && fin.kind != OP_ASM) return 2;
+  sim_begin_run(p.world);
+  Run R;
+  R.p = &p;
+  TaskRt T;
+  R.tasks.push_back(&T);
+  R.task_eh.assign(2, 0);
+  R.task_sh.assign(2, 0);
+  int eb = -1;
+  if (cr.n >= 0) {
+    eb = extbuf_new((size_t)cr.n, cr.guard, cr.fill, cr.uid);
+    if (eb < 0) return 2;
+  }
+  char *tb = via_file ? textbuf_new(fin.path, true) : textbuf_new(fin.text(), counting);
+  int ret = -99, off = -1, count = 0x5a5a5a5a;
+  long start = 0;
+  std::vector<uint8_t> bytes;
+  T.actx.reset_op(nullptr, fin.uid);
+  int j = in_lib(R, T.actx, [&] {
+    lib::inst_t al = eb >= 0 ? lib::create(extbuf_ptr(eb), (int)cr.n) : lib::create(nullptr, 0);
+    if (!al) return;
+    for (size_t i = 1; i + 1 < ops.size(); i++) {
+      const Op &o = ops[i];
+      if (o.kind == OP_SETTER) lib::setter(al, o.which, o.value);
+      else if (o.kind == OP_CHUNK) lib::set_chunk(al, (size_t)o.c);
+      else if (o.kind == OP_OFFSET) {
+        lib::set_offset(al, (int)o.k);
+        start = o.k;
+      }
+    }
+    if (via_file)
+      ret = counting ? lib::count_file(al, tb, (int)fin.c, &count) : lib::asm_file(al, tb, false);
+    else
+      ret = counting ? lib::count_str(al, tb, (int)fin.c, &count, false) : lib::asm_str(al, tb, false);
+    off = lib::get_offset(al);
+    if (ret == 0 && off >= start) {
+      const uint8_t *code = (const uint8_t *)lib::get_code(al, false);
+      Island *is = island_of(code + start);
+      if (off == start || (is && code + off <= is->base + is->len)) bytes.assign(code + start, code + off);
+    }
+    lib::destroy(al);
+  });
+  if (j != J_NONE) {
+    fprintf(out, "PRISTINE fault %s\n", j == J_HANG ? "hang" : fault_text(R, T.actx, eb >= 0 ? extbuf_ptr(eb) : nullptr, eb >= 0 ? extbuf_len(eb) : 0).c_str());
+    return 0;
+  }
+  fprintf(out, "PRISTINE ret=%d off=%d count=%d n=%d bytes=", ret, off, counting ? count : 0, (int)bytes.size());
+  for (uint8_t b : bytes) fprintf(out, "%02x", b);
+  fprintf(out, "\n");
+  return 0;
+}
+
+// does the new process's result differ from what was observed here?  (empty = no, or undecided)
+static std::string pristine_differs(const PristineResult &pr, bool counting, int ret, int off, int count_out, const uint8_t *code, long start) {
+  char d[300];
+  if (!pr.ok) return "";
+  if (pr.fault) {
+    snprintf(d, sizeof d, "after this history the call gave ret/offset %d/%d; on a new instance in a new process it ends in a %s", ret, off, pr.text.c_str() + 9);
+    return d;
+  }
+  if (pr.ret != ret || (ret == 0 && pr.off != off)) {
+    snprintf(d, sizeof d, "after this history the call gave ret/offset %d/%d, the same settings, offset and text on a new instance in a new process give %d/%d",
+             ret, off, pr.ret, pr.off);
+    return d;
+  }
+  if (ret != 0) return "";
+  if ((long)pr.bytes.size() != off - start) return "";
+  for (long q = 0; q < off - start; q++)
+    if (pr.bytes[(size_t)q] != code[start + q]) {
+      snprintf(d, sizeof d, "byte at offset %ld is %02x after this history, %02x on a new instance in a new process with the same settings", start + q,
+               code[start + q], pr.bytes[(size_t)q]);
+      return d;
+    }
+  if (counting && pr.count != count_out) {
+    snprintf(d, sizeof d, "count %d after this history, %d on a new instance in a new process", count_out, pr.count);
+    return d;
+  }
+  return "";
+}
+
 static void exec_asm(Run &R, TaskRt &T, int ti, int oi, const Op &op) {
   Inst &I = T.slots[op.slot & 3];
   if (!I.m.live || !I.al) {
@@ -627,7 +825,14 @@ static void exec_asm(Run &R, TaskRt &T, int ti, int oi, const Op &op) {
       if (fresh_internal && fret == 0 && foff >= start) {
         const uint8_t *code = (const uint8_t *)lib::get_code(fal, false);
         Island *fis = island_of(code);
-        if (fis && code + foff <= fis->base + fis->len) fcopy.assign(code, code + foff);
+        // only what this call emitted is looked at: a text without instructions at an offset beyond what a new
+        // instance has mapped writes nothing and need not grow anything
+        if (foff == start)
+          fcopy.assign((size_t)foff, 0);
+        else if (fis && code + foff <= fis->base + fis->len) {
+          fcopy.assign((size_t)foff, 0);
+          memcpy(fcopy.data() + start, code + start, (size_t)(foff - start));
+        }
       }
       lib::destroy(fal);
     });
@@ -639,7 +844,7 @@ static void exec_asm(Run &R, TaskRt &T, int ti, int oi, const Op &op) {
       return;
     }
     if (fresh_internal && fret == 0 && (long)fcopy.size() != foff) {
-      violate(R, ti, oi, &op, "code_ptr", "fresh instance: asm_get_code does not point at a live mapping holding [0, offset)", a.mode, false, explicit_off);
+      violate(R, ti, oi, &op, "code_ptr", "fresh instance: asm_get_code does not point at a live mapping holding the bytes this call emitted", a.mode, false, explicit_off);
       return;
     }
     const uint8_t *fp = fresh_internal ? fcopy.data() : extbuf_ptr(eb);
@@ -662,6 +867,14 @@ static void exec_asm(Run &R, TaskRt &T, int ti, int oi, const Op &op) {
     if (bad) {
       violate(R, ti, oi, &op, "fresh_twin", d, a.mode, m.external, explicit_off);
       return;
+    }
+    // a sample of these calls is also repeated in a new process (see pristine_process)
+    if (R.p->prop == "C15" && explicit_off && mix64(op.uid, 0x9e3779b97f4a7c15ULL) % 160 == 0 && off <= cv.cap && T.ctx.fired_total == 0) {
+      std::string why = pristine_differs(pristine_process(R, m, op, start, off), a.counting, ret, off, count_out, cv.p, start);
+      if (!why.empty()) {
+        violate(R, ti, oi, &op, "history", why, a.mode, m.external, explicit_off);
+        return;
+      }
     }
   }
 
@@ -701,6 +914,13 @@ static void exec_asm(Run &R, TaskRt &T, int ti, int oi, const Op &op) {
         violate(R, ti, oi, &op, "oracle_unstable",
                 "line \"" + ln.substr(0, 80) + "\" assembled alone on a fresh instance now gives another result than earlier in this process", a.mode,
                 m.external, explicit_off);
+        return;
+      }
+    }
+    if (R.p->prop == "C15" && explicit_off && !k.fault_fired && off <= cv.cap) {
+      std::string why = pristine_differs(pristine_process(R, m, op, start, off), a.counting, ret, off, count_out, cv.p, start);
+      if (!why.empty()) {
+        violate(R, ti, oi, &op, "history", why, a.mode, m.external, explicit_off);
         return;
       }
     }
